@@ -231,7 +231,9 @@ class Hdd(Parser):
     def gates(self):
         return {"descriptor_present": [("missing",), ("misnamed", "diskdescriptor.xml"), ("misnamed", "DiskDescriptor.xml.bak")],
                 "image_type": [("type", t) for t in ("Raw", "compressed", "PLAIN", "", "Expanding", "Compressed2", "Plain ", "Sparse")],
-                "parent_image_type": [("ptype", t, depth) for t in ("Raw", "compressed", "PLAIN", "", "Expanding", "Sparse") for depth in (1, 2)]}
+                "parent_image_type": [("ptype", t, depth) for t in ("Raw", "compressed", "PLAIN", "", "Expanding", "Sparse") for depth in (1, 2)],
+                # the snapshot chain names an ancestor for which the storage holds no image (or holds it under another GUID)
+                "ancestor_image_present": [("noimage", depth, how) for depth in (1, 2) for how in ("dropped", "other-guid")]}
 
     def open(self, variants):
         from dissect.hypervisor.disk.hdd import HDD
@@ -249,7 +251,14 @@ class Hdd(Parser):
                     ptypes[v[2]] = v[1]
             g0 = enc_hds.DEFAULT_TOP
             g1, g2 = "{11111111-aaaa-bbbb-cccc-000000000001}", "{22222222-aaaa-bbbb-cccc-000000000002}"
-            enc_hds.write_hdd_dir(d, [(0, 8, [(g0, itype, "a.hds"), (g1, ptypes[1], "m.hds"), (g2, ptypes[2], "b.hds")])],
+            images = [(g0, itype, "a.hds"), (g1, ptypes[1], "m.hds"), (g2, ptypes[2], "b.hds")]
+            for g, v in variants.items():
+                if v[0] == "noimage":
+                    if v[2] == "dropped":
+                        images.pop(v[1])
+                    else:
+                        images[v[1]] = ("{99999999-aaaa-bbbb-cccc-00000000000%d}" % v[1],) + images[v[1]][1:]
+            enc_hds.write_hdd_dir(d, [(0, 8, images)],
                                   [(g0, g1), (g1, g2), (g2, enc_hds.NULL_GUID)], {"a.hds": vf, "m.hds": vfm, "b.hds": vfb}, top_guid=g0)
             for g, v in variants.items():
                 if v[0] == "missing":
@@ -591,7 +600,7 @@ _ORDER = {
     "qcow2": ["magic", "version", "cluster_bits", "subcluster_size", "crypt_method", "compression", "data_file", "backing_file"],
     "vhdx": ["file_identifier", "header_signature", "region_signature_1", "region_signature_2", "metadata_region", "metadata_signature",
              "required_item", "unknown_required_item", "locator_type", "parent_resolved", "bat_region"],
-    "vdi": ["signature"], "hds": ["signature"], "hdd": ["descriptor_present", "image_type", "parent_image_type"], "vmdk-sparse": ["magic", "footer_magic"],
+    "vdi": ["signature"], "hds": ["signature"], "hdd": ["descriptor_present", "image_type", "parent_image_type", "ancestor_image_present"], "vmdk-sparse": ["magic", "footer_magic"],
     "vmdk-delta": ["extent_present", "parent_present"],
     "hyperv": ["header_signature", "version", "replay_log_signature", "object_table_signature", "chained_object_table_signature", "key_table_signature",
                "other_key_table_signature"],
